@@ -89,11 +89,68 @@ def chunk_sites(ctx, key):
     return g, P, res
 
 
+def guarded_subtractions(g, P):
+    """Overflow(Sub)(a, b) assert nodes that every path reaches with `a >= b` established by a comparison of the same two operands
+    (same provenance, same variable instances) and no redefinition of a variable they mention in between."""
+    want = {}
+    for n in P.live:
+        t = g.term(n)
+        if t["k"] == "assert" and not t["synthetic"] and t["akind"] == "Overflow(Sub)" and len(t["ops"]) == 2:
+            a, b = (g.prov_operand(g.inst(n), o) for o in t["ops"])
+            want[n] = (a, b)
+    if not want:
+        return set()
+    pairs = set(want.values())
+    GE = {("Gt", "true"): 0, ("Gt", "false"): 1, ("Ge", "true"): 0, ("Ge", "false"): 1,
+          ("Lt", "true"): 1, ("Lt", "false"): 0, ("Le", "true"): 1, ("Le", "false"): 0}
+
+    def vars_of(e, out):
+        if isinstance(e, tuple):
+            if e and e[0] == "var":
+                out.add((e[1], e[2]))
+            for x in e:
+                vars_of(x, out)
+        return out
+    pvars = {p: vars_of(p, set()) for p in pairs}
+    verdict = {}
+
+    def step(ms, pi, qi, learn):
+        facts = set(ms)
+        n = P.gnode(pi)
+        inst = g.inst(n)
+        for st in g.stmts(n):
+            if st["k"] == "assign" and not st["p"]["proj"]:
+                key = (inst.id, st["p"]["l"])
+                facts = {f for f in facts if key not in pvars[f]}
+        t = g.term(n)
+        if t["k"] == "call" and t.get("dest") and not t["dest"]["proj"]:
+            key = (inst.id, t["dest"]["l"])
+            facts = {f for f in facts if key not in pvars[f]}
+        if n in want:
+            verdict[n] = verdict.get(n, True) and (want[n] in facts)
+        for o, v in norm_learn(learn or []):
+            e = origin_stmt_expr(g, o)
+            if e is None or e[0] != "binop":
+                continue
+            side = GE.get((e[1], v))
+            if side is None:
+                continue
+            big, small = (e[2], e[3]) if side == 0 else (e[3], e[2])
+            if (big, small) in pairs:
+                facts.add((big, small))
+        return frozenset(facts)
+    run_monitor(P, frozenset(), step)
+    return {n for n, ok in verdict.items() if ok}
+
+
 def run(ctx, rep):
     rep.rule("R05.1", "recovery cannot panic: (a) every `len - k` / `[len - k]` on Chunk.global_offsets in Op(open) has k <= the minimum "
                       "length the offset vector can have when its constructing function returns Ok (vec![x] + dominating pushes; only "
-                      "push mutates it); (b) every other panic-capable site in Op(open)'s cone matches a reasoned entry of "
-                      "spec/c05_panic_sites.json (shape of kind+operands, not names/lines) -- a new site is an unreviewed violation")
+                      "push mutates it); (b) every Option unwrap in Op(open)'s cone is reached only with the value established Some (variant test, "
+                      "comparison, peek-before-pop, minimum length), every Result unwrap is a lock acquisition or the thread spawn, no explicit "
+                      "panic is reachable, and `a - b` guarded by a comparison of the same operands is recognised; (c) the remaining integer "
+                      "arithmetic / indexing sites are an inventory matched against the reviewed rows of spec/c05_panic_sites.json - reported, "
+                      "not armed (they are questions about values)")
     rep.rule("R05.2", "at rotation the next chunk file is not created before the old chunk's unwritten tail is handed to the worker")
     rep.rule("R05.3", "after a tail truncation set_len is followed by sync_all Ok before the chunk is used; the new open chunk's id is "
                       "the end offset of the last recovered chunk")
@@ -119,6 +176,10 @@ def run(ctx, rep):
     seen_sites = set()
     n_sites = 0
     unmatched = 0
+    guarded = guarded_subtractions(g, P)
+    opt_verdict, _cand = c16.option_unwrap_verdicts(g, P)
+    n_inventory = n_reviewed = 0
+    inventory_new = []
     for n in sorted(P.live):
         t = g.term(n)
         sid = (g.inst(n).key, n[1])
@@ -160,15 +221,66 @@ def run(ctx, rep):
             else:
                 rep.ok("R05.1", sig[:90], "k=%d <= min length %d" % (k, ml), where=g.where(n))
             continue
-        row = next((r for r in table if re.search(r["shape"], sig)), None)
-        if row:
-            rep.ok("R05.1", sig[:90], "reviewed: " + row["reason"][:110], where=g.where(n), nontrivial=False)
-        else:
+        if n in guarded:
+            rep.ok("R05.1", sig[:90], "engine-checked: `a - b` is reached only after a comparison of the same two operands established a >= b",
+                   where=g.where(n))
+            continue
+        # ---- engine-decided classes (armed) ----
+        if t["k"] == "call" and cmatch(t, c16.OPT_UNWRAP_RX):
+            a0 = event_args(g, n)
+            V = a0[0] if a0 else None
+            lastv = V if (isinstance(V, tuple) and V and V[0] == "call" and re.search(r"slice::<impl \[T\]>::(last|first)$", str(V[1]))) else None
+            if lastv is not None and lastv[2] and (lastv[2][0] in minlen_by_V and minlen_by_V[lastv[2][0]] >= 1):
+                rep.ok("R05.1", sig[:90], "engine-checked: first()/last() of an offset vector whose minimum length is %d"
+                       % minlen_by_V[lastv[2][0]], where=g.where(n))
+            elif opt_verdict.get(n):
+                rep.ok("R05.1", sig[:90], "engine-checked: the Option is established Some on every path reaching the unwrap", where=g.where(n))
+            else:
+                row = next((r for r in table if re.search(r["shape"], sig)), None)
+                if row and row.get("engine_fallback"):
+                    rep.ok("R05.1", sig[:90], "reviewed: " + row["reason"][:110], where=g.where(n), nontrivial=False)
+                else:
+                    unmatched += 1
+                    rep.violation("R05.1", "open|unguarded-unwrap:%s" % re.sub(r"v\d+_\d+", "v", sig)[:100], sig[:100],
+                                  "an Option is unwrapped in the recovery path without the path having established it to be Some (no variant "
+                                  "test, comparison, peek-before-pop or minimum-length argument): some crash image makes recovery panic",
+                                  where=g.where(n))
+            continue
+        if t["k"] == "call" and cmatch(t, r"Result::<T, E>::(unwrap|expect|unwrap_err|expect_err)$"):
+            raw = t["args"][0] if t.get("args") else None
+            ty = g.inst(n).body["locals"][raw["p"]["l"]]["ty"] if raw and raw.get("p") else ""
+            if re.search(r"PoisonError|RwLock(Read|Write)Guard|MutexGuard", ty):
+                rep.ok("R05.1", sig[:90], "lock acquisition: a poisoned lock needs an earlier panic while it was held (R16.4); recovery is "
+                       "single-threaded until the worker is spawned", where=g.where(n), nontrivial=False)
+            elif re.search(r"JoinHandle", ty):
+                rep.ok("R05.1", sig[:90], "thread spawn failure is an OS resource condition, independent of the crash image", where=g.where(n),
+                       nontrivial=False)
+            else:
+                unmatched += 1
+                rep.violation("R05.1", "open|result-unwrap:%s" % re.sub(r"v\d+_\d+", "v", sig)[:100], sig[:100],
+                              "a Result is unwrapped in the recovery path: an I/O or decode error on some crash image becomes a panic instead of "
+                              "an error return", where=g.where(n))
+            continue
+        if sig.startswith("explicit:"):
             unmatched += 1
-            rep.violation("R05.1", "open|unreviewed-panic-site:%s" % re.sub(r"v\d+_\d+", "v", sig)[:100], sig[:100],
-                          "a panic-capable site in the recovery path is not covered by an engine-checked pattern nor by a reasoned entry "
-                          "of spec/c05_panic_sites.json: recovery may panic on some crash image", where=g.where(n))
-    rep.floor("R05.1", "panic-capable sites examined in Op(open)", n_sites, 40)
+            rep.violation("R05.1", "open|explicit-panic:%s" % sig[9:60], sig[:100],
+                          "an explicit panic / assertion is reachable in the recovery path", where=g.where(n))
+            continue
+        # ---- everything else (integer arithmetic, indexing, range calls): not decidable by the engine; kept as a reviewed inventory ----
+        row = next((r for r in table if re.search(r["shape"], sig)), None)
+        n_inventory += 1
+        if row:
+            n_reviewed += 1
+            rep.ok("R05.1", sig[:90], "inventory, reviewed: " + row["reason"][:100], where=g.where(n), nontrivial=False)
+        else:
+            inventory_new.append("%s (%s)" % (sig[:80], g.where(n)))
+    rep.floor("R05.1", "panic-capable sites examined in Op(open)", n_sites, 30)
+    rep.ok("R05.1", "inventory of arithmetic / indexing sites in the recovery cone",
+           "%d site(s), %d matching a reviewed row of spec/c05_panic_sites.json, %d not reviewed (listed in the notes; NOT armed: whether "
+           "integer arithmetic on offsets and lengths can overflow is a question about values)" % (n_inventory, n_reviewed, len(inventory_new)),
+           nontrivial=False)
+    for x in inventory_new[:20]:
+        rep.notes.append("R05.1 inventory, not reviewed: " + x)
 
     # ---------------- R05.2 -------------------------------------------------------------
     key = ctx.body_key(WRITER_RX % "append")
